@@ -18,9 +18,63 @@ import (
 
 var bulkSizes = [...]int{700, 1500, 3000}
 
-func BulkEnumSize() int64 { return int64(len(bulkSizes)) * 2 }
+const bulkRaceRuns = 512
+
+func BulkEnumSize() int64 { return int64(len(bulkSizes))*2 + bulkRaceRuns }
+
+// runBulkRace: a table of a few hundred names, all past their lifetime; one task sweeps while another hands one of
+// the names over (its holder releases it, a new owner registers it for an hour). However the three operations
+// interleave, a registration that was acknowledged is there afterwards: the sweep may remove the old lease, never the
+// new one. The iteration order of the table's map differs from run to run (seeded), and so does the schedule.
+func runBulkRace(seed uint64, index int64, o hx.Opts) *hx.Result {
+	res := &hx.Result{Property: "C17", Scenario: "bulkenum", Index: index, Seed: seed, Extra: map[string]int64{}}
+	en := hx.AllKinds()
+	cfg := rt.Config{Seed: seed, Replay: o.Replay, NPoints: o.NPoints, Bias: hx.Swarm(seed, en), MaxSteps: 4_000_000}
+	w := rt.NewWorld(cfg)
+	w.NoSkip = true
+	var bad *hx.Violation
+	n := 0
+	v := w.Run(func() {
+		v6Addrs = false
+		rt.JumpClock(1)
+		n = 130 + hx.G(200)
+		ns := nbtns.NewNetBIOSNameServer(hx.G(2) == 1)
+		name := func(i int) string { return fmt.Sprintf("RACE%05d", i) }
+		ip := func(i int) net.IP { return net.IP{10, 8, byte(i >> 8), byte(i)} }
+		for i := 0; i < n; i++ {
+			rt.ResetSpin()
+			ns.RegisterName(name(i), nbtns.Unique, ip(i), 20*time.Second)
+		}
+		rt.JumpClock(31e9)
+		x := hx.G(n)
+		newOwner := net.IP{10, 9, 9, 9}
+		var regErr error
+		sweeper := rt.GoHarness("sweeper", "", func() { ns.CleanExpiredNames() })
+		mover := rt.GoHarness("hand-over", "", func() {
+			ns.ReleaseName(name(x), ip(x)) // may fail: the sweep may have removed the name already
+			regErr = ns.RegisterName(name(x), nbtns.Unique, newOwner, time.Hour)
+		})
+		rt.Join(sweeper, -1)
+		rt.Join(mover, -1)
+		rt.ResetSpin()
+		owners, _, err := ns.QueryName(name(x))
+		if regErr == nil && (err != nil || len(owners) != 1 || !owners[0].Equal(newOwner)) {
+			bad = &hx.Violation{Class: "nonlinearizable", Key: "Register->ok",
+				Msg: fmt.Sprintf("%d names past their lifetime; CleanExpiredNames() ran while name #%d was released by its holder and registered by a new owner for an hour. The registration returned nil, both calls have returned, and Query now says: owners=%v err=%v", n, x, owners, err)}
+		}
+	})
+	res.SimNs = w.SimNow()
+	res.Violation = bad
+	res.NonTrivial = true
+	res.Sample = fmt.Sprintf("hand-over during a sweep of %d expired names", n)
+	hx.Finish(res, w, v, false)
+	return res
+}
 
 func runBulkEnum(seed uint64, index int64, o hx.Opts) *hx.Result {
+	if index >= int64(len(bulkSizes))*2 {
+		return runBulkRace(seed, index, o)
+	}
 	res := &hx.Result{Property: "C17", Scenario: "bulkenum", Index: index, Seed: seed, Extra: map[string]int64{}}
 	n := bulkSizes[index%int64(len(bulkSizes))]
 	secured := index/int64(len(bulkSizes))%2 == 1
